@@ -21,9 +21,12 @@ def transformer_init(self: "any", filename: "any", parser_context: "any", filesy
     note("straight-line assignments, one read through the filesystem proxy (same file that was just read) and one dict store")
 
 
-@assumed("fcp.error:Logger.add_source")
-def add_source(self: "any", name: "any", source: "any"):
-    note("one dict store")
+@contract("fcp.error:Logger.add_source")
+def add_source(self: "Logger", name: "str", source: "str"):
+    note("one dict store: afterwards the logger holds `source` under `name` and every other entry is unchanged")
+    modifies(self.sources)
+    ensures(dyn_get(self.sources, name) == to_dyn(source))
+    ensures(forall("str", lambda k: implies(k != name, dyn_get(self.sources, k) == dyn_get(old(self.sources), k))))
 
 
 @assumed("fcp.error:Logger.log_lark")
@@ -44,6 +47,7 @@ def proxy_read(self: "any", filename: "any") -> "str":
 @contract("fcp.parser:_get_fcp")
 def _get_fcp(filename: "any", filesystem_proxy: "heap:IFileSystemProxy", logger: "heap:Logger") -> "result[any,any]":
     note("the only exception allowed to leave is the attempt() of an Err result, which the @catch of the two entry points converts")
+    modifies(logger.sources)
     may_raise(ResultAttemptError)
     ensures(result.is_ok() or result.is_err())
 
@@ -51,6 +55,7 @@ def _get_fcp(filename: "any", filesystem_proxy: "heap:IFileSystemProxy", logger:
 @contract("fcp.parser:get_fcp_from_string")
 def get_fcp_from_string(source: "str", logger: "heap:Logger" = None) -> "any":
     note("no raises clause: every path that raises is an obligation failure")
+    modifies(logger.sources)
     ensures(result.is_ok() or result.is_err())
 
 
@@ -87,7 +92,7 @@ def nested_transform(tree: "any") -> "result[ref:FcpV2,heap:FcpError]":
 @contract("fcp.parser:FcpV2Transformer.mod_expr")
 def mod_expr(self: "FcpV2Transformer", tree: "ref:LarkTree") -> "any":
     note("C20/C11: an imported module is parsed by a nested transformer and merged at the point of the import; every failure is an error value")
-    modifies(self.fcp.structs, self.fcp.enums, self.fcp.impls, self.fcp.services, self.fcp.devices)
+    modifies(self.fcp.structs, self.fcp.enums, self.fcp.impls, self.fcp.services, self.fcp.devices, self.error_logger.sources)
     may_raise(VisitError)
     ensures(result.is_ok() or result.is_err())
     # transparency: on success the importing schema is the old one followed by the module's declarations, list by list
@@ -110,6 +115,12 @@ def mod_expr(self: "FcpV2Transformer", tree: "ref:LarkTree") -> "any":
                             and effect_index("call:Logger.add_source", 0)
                             < (effect_index("call:lark.Lark().parse", 0) if effect_count("call:lark.Lark().parse") == 1
                                else effect_index("raise:lark.Lark().parse", 0))))
+    # C11 (F24): when the nested transformer is started, the logger holds the module's text under the very path the transformer
+    # records in the metadata of the module's nodes (the key error rendering looks up first), so that an error citing the
+    # module can be rendered even if another file with the same name was registered in between
+    ensures_effects(implies(effect_count("call:FcpV2Transformer.__init__") == 1,
+                            dyn_get(self.error_logger.sources, str(effect_arg("call:FcpV2Transformer.__init__", 0, 1)))
+                            == to_dyn(effect_result("call:read_file", 0))))
     # errors: a missing file, a syntax error in the module and an error returned by the nested transformer all give Err and leave the schema alone
     ensures_effects(implies(effect_count("raise:read_file") == 1, result.is_err()))
     ensures_effects(implies(effect_count("raise:lark.Lark().parse") == 1, result.is_err()))
